@@ -380,7 +380,12 @@ Inductive oev :=
 Record pair := mkPair
   { enabled : bool;      (* shared by the two adapters *)
     encC : enc; encS : enc;
-    adC : st; adS : st }.
+    adC : st; adS : st;
+    (* factory configuration: which directions the ProcessorFactory returned
+       a (non-nil) processor for.  A direction without one has no adapter:
+       h2 (h2.go, "Bypasses any nil processors") sends its frames straight
+       to the sink. *)
+    procC : bool; procS : bool }.
 
 (* Header names/values and the `switch h.Value` table are not hand-copied:
    Gen_GrpcEnc.v is regenerated from h2/grpc/grpc.go on every run. *)
@@ -416,7 +421,8 @@ Definition default_enc : enc :=
   | [] => Identity
   end.
 
-Definition pair0 : pair := mkPair false default_enc default_enc st0 st0.
+Definition pair_cfg (hc hs : bool) : pair := mkPair false default_enc default_enc st0 st0 hc hs.
+Definition pair0 : pair := pair_cfg true true.
 
 Definition is_grpc (hs : list hfield) : bool :=
   existsb (fun h => bytes_eqb (fst h) s_content_type && bytes_eqb (snd h) s_application_grpc) hs.
@@ -472,21 +478,23 @@ Definition get_enc (d : dir) (p : pair) : enc := match d with CtoS => encC p | S
 Definition get_ad (d : dir) (p : pair) : st := match d with CtoS => adC p | StoC => adS p end.
 Definition set_enc (d : dir) (e : enc) (p : pair) : pair :=
   match d with
-  | CtoS => mkPair (enabled p) e (encS p) (adC p) (adS p)
-  | StoC => mkPair (enabled p) (encC p) e (adC p) (adS p)
+  | CtoS => mkPair (enabled p) e (encS p) (adC p) (adS p) (procC p) (procS p)
+  | StoC => mkPair (enabled p) (encC p) e (adC p) (adS p) (procC p) (procS p)
   end.
 Definition set_ad (d : dir) (s : st) (p : pair) : pair :=
   match d with
-  | CtoS => mkPair (enabled p) (encC p) (encS p) s (adS p)
-  | StoC => mkPair (enabled p) (encC p) (encS p) (adC p) s
+  | CtoS => mkPair (enabled p) (encC p) (encS p) s (adS p) (procC p) (procS p)
+  | StoC => mkPair (enabled p) (encC p) (encS p) (adC p) s (procC p) (procS p)
   end.
-Definition set_enabled (p : pair) : pair := mkPair true (encC p) (encS p) (adC p) (adS p).
+Definition set_enabled (p : pair) : pair := mkPair true (encC p) (encS p) (adC p) (adS p) (procC p) (procS p).
+Definition has_proc (d : dir) (p : pair) : bool := match d with CtoS => procC p | StoC => procS p end.
 
 Definition through (v : variant) (d : dir) (e : enc) (evs : list ev) : list oev :=
   flat_map (fun x => [PMsg d (ev_data x) (ev_es x); SData d (fst (emit v e x)) (snd (emit v e x))]) evs.
 
-(* one op: new state, calls it caused, and whether the script goes on *)
-Definition op_step (v : variant) (p : pair) (o : op) : option (pair * list oev * bool) :=
+(* one op on a direction that HAS an adapter: new state, calls it caused, and
+   whether the script goes on *)
+Definition adapter_step (v : variant) (p : pair) (o : op) : option (pair * list oev * bool) :=
   match o with
   | OpHeader d hs es =>
       let p1 := if enabled p then p else if is_grpc hs then set_enabled p else p in
@@ -505,6 +513,28 @@ Definition op_step (v : variant) (p : pair) (o : op) : option (pair * list oev *
         end
       else Some (p, [SData d data es], true)
   end.
+
+Definition op_dir (o : op) : dir :=
+  match o with OpHeader d _ _ => d | OpData d _ _ => d end.
+
+(* one op: a direction for which the factory returned no processor has no
+   adapter (its HEADERS are not even looked at for gRPC detection) and its
+   frames go to the sink as they are *)
+Definition op_step (v : variant) (p : pair) (o : op) : option (pair * list oev * bool) :=
+  if has_proc (op_dir o) p then adapter_step v p o
+  else
+    match o with
+    | OpHeader d hs es => Some (p, [SHeader d hs es], true)
+    | OpData d data es => Some (p, [SData d data es], true)
+    end.
+
+(* which streams are gRPC, written out independently: some HEADERS seen by
+   an existing adapter carried content-type: application/grpc *)
+Definition std_stream_is_grpc (hc hs : bool) (ops : list op) : bool :=
+  existsb (fun o => match o with
+                    | OpHeader d h false => (match d with CtoS => hc | StoC => hs end) && std_is_grpc h
+                    | _ => false
+                    end) ops.
 
 (* per executed op the calls it caused; [None] = out of fuel *)
 Fixpoint run_ops (v : variant) (p : pair) (ops : list op) : option (list (list oev)) :=
@@ -548,7 +578,8 @@ Fixpoint pair_after (v : variant) (p : pair) (ops : list op) : option pair :=
    an error.  Ops of different streams arrive interleaved. *)
 Definition sess := nat -> pair * bool.
 
-Definition sess0 : sess := fun _ => (pair0, false).
+Definition sess_cfg (hc hs : bool) : sess := fun _ => (pair_cfg hc hs, false).
+Definition sess0 : sess := sess_cfg true true.
 
 Definition upd (k : nat) (x : pair * bool) (ss : sess) : sess :=
   fun j => if Nat.eqb j k then x else ss j.
